@@ -422,3 +422,80 @@ Example C06_reader_refines_example :
   verdict (read_any_coded T_LIST [99; 0; 0; 0; 0]) = (E_TYPE, 1, 1) /\
   decode 6 T_LIST [99; 0; 0; 0; 0] = Some (ThriftWire.VList 99 [], []).
 Proof. vm_compute. repeat split; reflexivity. Qed.
+
+(* ================================================================================================================
+   Totality of the list-based byte walkers on ARBITRARY bytes (proofs/RobustWalkProofs.v).
+   These models read with take/skipn/varint_dec: a read past the end is None BY CONSTRUCTION (no OverRead to exclude).
+   Their loops run on a fuel the model gives itself; a None answer therefore conflates "rejected" with "fuel exhausted".
+   The theorems below say the second never happens: every fuel above |bs| (and every nesting budget above the height of
+   the descriptor / half the number of bytes) gives the SAME answer, because every loop iteration consumes >= 1 byte or
+   returns; and what is handed back lies inside the buffer.
+   ================================================================================================================ *)
+From DG Require Import ThriftGeneric T2J T2JBytes P2J P2JBytes RobustWalkProofs.
+
+(* ---- thrift/generic get_by_path (ThriftGeneric.v) ---- *)
+Theorem C06_skip_go_progress :
+  forall t bs r, skip_go t bs = Some r -> exists n, (1 <= n <= length bs)%nat /\ r = skipn n bs.
+Proof. exact skip_go_suffix. Qed.
+Print Assumptions C06_skip_go_progress.
+
+Theorem C06_search_field_fuel_stable :
+  forall f f' id bs off, (length bs < f)%nat -> (length bs < f')%nat ->
+  search_field f id bs off = search_field f' id bs off.
+Proof. exact search_field_fuel_stable. Qed.
+Print Assumptions C06_search_field_fuel_stable.
+
+(* get_by_path_f: the same walk with ONE explicit fuel used at every step of the path *)
+Theorem C06_get_by_path_total :
+  forall p f t bs off, (length bs < f)%nat -> get_by_path_f f t bs off p = get_by_path t bs off p.
+Proof. exact get_by_path_total. Qed.
+Print Assumptions C06_get_by_path_total.
+
+Theorem C06_get_by_path_in_bounds :
+  forall p t bs off t' s e, get_by_path t bs off p = GFound t' s e -> off <= s /\ s < e /\ e <= off + zlen bs.
+Proof. exact get_by_path_in_bounds. Qed.
+Print Assumptions C06_get_by_path_in_bounds.
+
+(* ---- conv/t2j byte walk (T2JBytes.v) ---- *)
+Theorem C06_t2j_walk_progress :
+  forall fd o n d bs txt r, t2j_walk_gen fd o n d bs = Some (txt, r) -> (length r < length bs)%nat.
+Proof. exact t2j_walk_shrinks. Qed.
+Print Assumptions C06_t2j_walk_progress.
+
+Theorem C06_t2j_walk_depth_stable :
+  forall fd o n n' d bs, (desc_height d <= n)%nat -> (desc_height d <= n')%nat ->
+  t2j_walk_gen fd o n d bs = t2j_walk_gen fd o n' d bs.
+Proof. exact t2j_walk_depth_stable. Qed.
+Print Assumptions C06_t2j_walk_depth_stable.
+
+(* t2j_walk_f: the walk with an explicit field-loop fuel lf; |bs| + 1 and the height of the descriptor suffice *)
+Theorem C06_t2j_walk_total :
+  forall fd o lf lf' n n' d bs,
+  (length bs < lf)%nat -> (length bs < lf')%nat -> (desc_height d <= n)%nat -> (desc_height d <= n')%nat ->
+  t2j_walk_f fd o lf n d bs = t2j_walk_f fd o lf' n' d bs /\ t2j_walk_f fd o lf n d bs = t2j_walk_gen fd o n' d bs.
+Proof. exact t2j_walk_total. Qed.
+Print Assumptions C06_t2j_walk_total.
+
+(* ---- conv/p2j byte walk (P2JBytes.v) ---- *)
+Theorem C06_wdec_val_progress :
+  forall wt bs v r, wdec_val wt bs = Some (v, r) -> (length r < length bs)%nat.
+Proof. exact wdec_val_shrinks. Qed.
+Print Assumptions C06_wdec_val_progress.
+
+Theorem C06_p2j_walk_depth_stable :
+  forall fl o Sc f f' name body, (length body < f)%nat -> (length body < f')%nat ->
+  walk_msg fl o Sc f name body = walk_msg fl o Sc f' name body.
+Proof. exact walk_msg_depth_stable. Qed.
+Print Assumptions C06_p2j_walk_depth_stable.
+
+Theorem C06_p2j_walk_total :
+  forall f o Sc name bs, (length bs < f)%nat -> p2j_walk f o Sc name bs = p2j_walk (S (length bs)) o Sc name bs.
+Proof. exact p2j_walk_total. Qed.
+Print Assumptions C06_p2j_walk_total.
+
+(* one loop fuel lf for every loop and a nesting fuel df: lf >= |bs| and 2 df > |bs| give the model's answer *)
+Theorem C06_p2j_walk_f_total :
+  forall fl o Sc lf df name bs, (length bs <= lf)%nat -> (length bs < 2 * df)%nat ->
+  walk_msg_f fl o Sc lf df name bs = p2j_walk_gen fl (S (length bs)) o Sc name bs.
+Proof. exact p2j_walk_f_total. Qed.
+Print Assumptions C06_p2j_walk_f_total.
